@@ -22,12 +22,12 @@ RULE = ("histories of <= 3 calls drawn from {backward, mtl_backward, torch.autog
         "{False, True} x chunk in {None,1,2,m}: ALL 20 + 400 histories of length <= 2 (exhaustive over step kinds) on several programs "
         "each, random ones of length 3; programs with and without saved tensors; heads share no node besides the features; non-trivial "
         "= the history contains a torchjd call with retain_graph=False on a graph that has saved tensors; distinct = (program, history)")
-EXHAUSTIVE_NOTE = {"quick": "all histories of length <= 2 over the 20 step kinds (420) x 2 programs", "thorough": "all histories of length <= 2 over the 20 step kinds (420) x 120 programs"}
+EXHAUSTIVE_NOTE = {"quick": "all histories of length <= 2 over the 20 step kinds (420) x 2 programs", "thorough": "all histories of length <= 2 over the 20 step kinds (420) x 360 programs"}
 ASSUMPTIONS = ["a node fails in a further differentiation iff its saved tensors were released (probed literally as well)",
                "mtl_backward compared with autograd.backward(losses, inputs=all listed parameters) on programs whose heads share no "
                "graph node besides the features, default parameter lists"]
-PROGS = {"quick": 2, "thorough": 120}
-RANDOM3 = {"quick": 400, "thorough": 48000}
+PROGS = {"quick": 2, "thorough": 360}
+RANDOM3 = {"quick": 400, "thorough": 144000}
 CHUNKS = [None, 1, 2, "m"]
 STEP_KINDS = ([("bw", r, c) for r in (False, True) for c in CHUNKS] + [("mtl", r, c) for r in (False, True) for c in CHUNKS]
               + [("ag_bw", r, None) for r in (False, True)] + [("ag_grad", r, None) for r in (False, True)])
